@@ -123,3 +123,36 @@ func debugSeizeErr(w *World, id uint64) string {
 	err := w.App.NewliqKeeper.LiquidateIndividualBorrow(cctx, id, "", false)
 	return fmt.Sprint(err)
 }
+
+// debugAuc (VERIF_DEBUG_AUC): auction custody and records after every event of a replay.
+func debugAuc(w *World, ev *Event, res Result) {
+	if os.Getenv("VERIF_DEBUG_AUC") == "" || w.Cdp == nil {
+		return
+	}
+	ctx := w.Ctx()
+	fmt.Printf("--- h=%d after %s %s ok=%v log=%.120s\n", w.Height(), ev.Kind, ev.Tag, res.Tx.OK(), res.Tx.Log)
+	fmt.Printf("    auctionsV2 bal: %s\n    liquidationsV2 bal: %s\n", w.App.BankKeeper.GetAllBalances(ctx, w.ModAddr("auctionsV2")), w.App.BankKeeper.GetAllBalances(ctx, w.ModAddr("liquidationsV2")))
+	for _, a := range w.App.NewaucKeeper.GetAuctions(ctx) {
+		fmt.Printf("    auction %d dutch=%v coll=%s debt=%s bonus=%s price=%s lv=%d\n", a.AuctionId, a.AuctionType, a.CollateralToken, a.DebtToken, a.BonusAmount, a.CollateralTokenAuctionPrice, a.LockedVaultId)
+	}
+	for _, lv := range w.App.NewliqKeeper.GetLockedVaults(ctx) {
+		fmt.Printf("    locked %d type=%s target=%s fee=%s coll=%s debt=%s\n", lv.LockedVaultId, lv.InitiatorType, lv.TargetDebt, lv.FeeToBeCollected, lv.CollateralToken, lv.DebtToken)
+	}
+	for _, as := range w.Cdp.Assets {
+		if rf, ok := w.App.NewliqKeeper.GetAppReserveFunds(ctx, w.Cdp.AppID, as.ID); ok {
+			fmt.Printf("    reserve asset %d: %s\n", as.ID, rf.TokenQuantity)
+		}
+	}
+	for _, a := range w.Actors {
+		if d, ok := w.App.NewaucKeeper.GetUserLimitBidDataByAddress(ctx, a.Bech()); ok {
+			for _, k := range d.LimitOrderBidKey {
+				if b, ok := w.App.NewaucKeeper.GetUserLimitBidData(ctx, k.DebtTokenId, k.CollateralTokenId, k.PremiumDiscount, a.Bech()); ok {
+					fmt.Printf("    limit bid %s debt=%s prem=%s\n", a.Name, b.DebtToken, b.PremiumDiscount)
+				}
+			}
+		}
+	}
+	for _, pd := range w.App.NewaucKeeper.GetAllLimitBidProtocolData(ctx) {
+		fmt.Printf("    limit protocol data coll=%d debt=%d bidvalue=%s\n", pd.CollateralAssetId, pd.DebtAssetId, pd.BidValue)
+	}
+}
